@@ -75,10 +75,13 @@ CLAIMED = {
             "Every string TLC enumerates is parsed by the composed specification and by the real parser (etree and dom builders); the "
             "canonical trees and the parser's final internal state (mode, stack of open elements, active formatting elements, flags) "
             "must be equal. TLC finds a shortest input per abstract parser state and the harness extends each by every token of a wide "
-            "alphabet; real result trees on arbitrary inputs in document mode and all 26 fragment contexts are re-derived by TLC.",
+            "alphabet; real result trees on arbitrary inputs in document mode and all 26 fragment contexts are re-derived by TLC; "
+            "table-driven clauses (quirks tables, reference followers) are swept row by row incl. values harvested from the source.",
             "The specification is transcribed phase by phase from the WHATWG algorithm AS html5lib implements it, with the deviations "
             "from the June-2020 standard that I am certain of as named branches (listed known findings); clauses I could not confirm "
-            "offline follow the code (ASSUMED). template is not modelled (html5lib has none). Characters-token boundaries in the "
+            "offline follow the code (ASSUMED). template is modelled: html5lib's behaviour (an ordinary special element) in the "
+            "code-faithful configuration, the standard's template rules as the intended branch of a listed deviation. "
+            "Characters-token boundaries in the "
             "frameset / colgroup-fragment modes are reproduced only for text without '&', NUL and stray '<' (such trace inputs are "
             "skipped and counted). Bounds: <=3-4 fragments per theme exhaustive; cover prefixes <=3-5 fragments.", "5/C01"),
     "C03": ("model_checking",
@@ -88,7 +91,8 @@ CLAIMED = {
             "TLC proves the skeleton and the structural invariants for every input in the bounds on the specification; the real parser "
             "is bound to it by exact replay, must return a tree (no exception, wall-clock budget) for arbitrary text, random bytes and "
             "encoded inputs under every builder/namespacing/context/scripting combination, its result is judged by TLC, and it is "
-            "driven to depth 1500-5000 with every (prefix, tag) pair that the model says grows the stack.",
+            "driven to depth 1500-5000 with every (prefix, tag) pair that the model says grows the stack; the TLC-computed transition "
+            "cover of C01 and every prefix of well-formed encoding declarations (as bytes) are run for totality and skeleton.",
             "Non-termination is observed as a 20 s timeout, not proved. Deep (pumped) minidom results are only checked for totality. "
             "The literal skeleton clause is violated by <noframes> after </frameset> (listed finding; it is also what the standard does).",
             "5/C03"),
